@@ -11,7 +11,9 @@ import (
 	"context"
 	"fmt"
 	"os"
+	"path/filepath"
 	"sort"
+	"strings"
 	"syscall"
 	"time"
 
@@ -38,18 +40,21 @@ const (
 
 // ---------------------------------------------------------------- C06 runner
 
-// input: (view (openfail-path ...) ((( when id ) ...) ending) capacity chunklen walkfail [transport])
+// input: (view (openfail-path ...) ((( when id ) ...) ending) capacity chunklen walkfail [transport [holds]])
 //
 //	walkfail: 0 = none, j+1 = the walk fails before reporting entry j (j = #entries: after the last)
 //	transport: see c0607_transport.go (absent = 0)
+//	holds: ((kind n) ...) sends of Send that are kept in flight, see c0607Hold in c0607_tap.go
 //
-// output: (trace hang misuse)   hang: 0 returned, 1 returned only after tear-down, 2 never returned;
+// output: (trace hang late (sendoverlaps recvoverlaps))
 //
-//	misuse = overlapping stream calls + stream calls attempted after Send had returned
+//	hang: 0 returned, 1 returned only after tear-down, 2 never returned; late = stream calls
+//	attempted after Send had returned; overlaps = SendMsg (RecvMsg) calls of Send on the
+//	caller's stream that began while another SendMsg (RecvMsg) was still in flight
 func run0601(in Sx) (out Sx) {
 	defer func() {
 		if r := recover(); r != nil {
-			out = L(L(), N(3), S(fmt.Sprint(r)))
+			out = L(L(), N(3), N(0), L(N(0), N(0)), S(fmt.Sprint(r)))
 		}
 	}()
 	view := SxView(in.L[0])
@@ -72,9 +77,14 @@ func run0601(in Sx) (out Sx) {
 
 	ctx, cancel := context.WithCancel(context.Background())
 	defer cancel()
-	sp := c0607NewWire(ctx, transport, capacity, true)
+	var holds []c0607Hold
+	if len(in.L) > 7 {
+		holds = c0607SxHolds(in.L[7])
+	}
+	sp := c0607NewWire(ctx, transport, capacity)
 	tap := &Tap{}
-	conn := c0607TapOn(sp.Real, tap)
+	conn := c0607TapOn(sp, tap, holds)
+	defer conn.Stop()
 	mfs := &MemFS{Roots: view, ChunkLen: chunk}
 	mfs.OpenHook = func(p string) error {
 		if openfail[p] {
@@ -127,11 +137,40 @@ func run0601(in Sx) (out Sx) {
 	case <-rr.done:
 	case <-time.After(3 * time.Second):
 	}
+	conn.Stop()
 	tr, late := traceSx(evs)
-	return L(tr, NI(hang), NI(sp.Overlaps()+late))
+	so, ro := conn.Overlaps()
+	return L(tr, NI(hang), NI(late), L(NI(so), NI(ro)))
 }
 
 // ---------------------------------------------------------------- C07 runner
+
+// the receive filter of the C07 cases: a path is rejected when it is listed or lies below a listed path
+func c0607Rejected(rejects []string, p string) bool {
+	p = filepath.ToSlash(p)
+	for _, q := range rejects {
+		if p == q || strings.HasPrefix(p, q+"/") {
+			return true
+		}
+	}
+	return false
+}
+
+func c0607SxHolds(x Sx) []c0607Hold {
+	var hs []c0607Hold
+	for _, h := range x.L {
+		hs = append(hs, c0607Hold{Kind: h.L[0].Int(), N: h.L[1].Int()})
+	}
+	return hs
+}
+
+func c0607HoldsSx(hs []c0607Hold) Sx {
+	xs := make([]Sx, len(hs))
+	for i, h := range hs {
+		xs[i] = L(NI(h.Kind), NI(h.N))
+	}
+	return L(xs...)
+}
 
 func flattenViewAcc(roots []*MNode) []refEntry {
 	var out []refEntry
@@ -155,6 +194,10 @@ func flattenViewAcc(roots []*MNode) []refEntry {
 }
 
 func diskFilesSx(dir string) Sx {
+	// a broken receiver can replace the destination itself (by a FIFO: opening it would block for ever)
+	if fi, err := os.Lstat(dir); err != nil || !fi.IsDir() {
+		return L(N(0), L(), S("destination is not a directory any more"))
+	}
 	snap, err := SnapshotRaw(dir, true)
 	if err != nil {
 		return L(N(0), L(), S(err.Error()))
@@ -168,13 +211,16 @@ func diskFilesSx(dir string) Sx {
 	return L(N(1), L(fs...))
 }
 
-// input: (view prior (unchanged-path ...) (merge differ) (chunkmode chunk statweight pick ending closeafter seed) capacity progress [transport])
+// input: (view prior (unchanged-path ...) (merge differ) (chunkmode chunk statweight pick ending closeafter seed) capacity progress [transport [rejects [holds]]])
 //
 //	view: what the reference sender announces (walk order) and serves; prior: what the
 //	destination holds before the transfer; unchanged: paths whose prior entry equals the
 //	announced one (the diff does not report them).
+//	rejects: (path ...): ReceiveOpt.Filter answers false for these paths and everything below
+//	them (and true, without touching the stat, otherwise); () = no Filter
+//	holds: sends of Receive kept in flight (c0607Hold)
 //
-// output: (trace hang (taken ((path content) ...)) (taken ((path content) ...)) late)
+// output: (trace hang (taken ((path content) ...)) (taken ((path content) ...)) late (sendoverlaps recvoverlaps))
 //
 //	  late = stream calls the receiver still attempted after Receive had returned
 //
@@ -183,7 +229,7 @@ func diskFilesSx(dir string) Sx {
 func run0701(in Sx) (out Sx) {
 	defer func() {
 		if r := recover(); r != nil {
-			out = L(L(), N(3), L(N(0), L()), L(N(0), L(), S(fmt.Sprint(r))), N(0))
+			out = L(L(), N(3), L(N(0), L()), L(N(0), L(), S(fmt.Sprint(r))), N(0), L(N(0), N(0)))
 		}
 	}()
 	view := SxView(in.L[0])
@@ -203,16 +249,30 @@ func run0701(in Sx) (out Sx) {
 	dest := WorkDir("c07-")
 	defer os.RemoveAll(dest)
 	if err := Materialize(prior, dest); err != nil {
-		return L(L(), N(4), L(N(0), L()), L(N(0), L(), S(err.Error())), N(0))
+		return L(L(), N(4), L(N(0), L()), L(N(0), L(), S(err.Error())), N(0), L(N(0), N(0)))
 	}
 	entries := flattenViewAcc(view)
 
 	ctx, cancel := context.WithCancel(context.Background())
 	defer cancel()
-	sp := c0607NewWire(ctx, transport, capacity, false)
+	var rejects []string
+	if len(in.L) > 8 {
+		for _, q := range in.L[8].L {
+			rejects = append(rejects, q.Str())
+		}
+	}
+	var holds []c0607Hold
+	if len(in.L) > 9 {
+		holds = c0607SxHolds(in.L[9])
+	}
+	sp := c0607NewWire(ctx, transport, capacity)
 	tap := &Tap{}
-	conn := c0607TapOn(sp.Real, tap)
+	conn := c0607TapOn(sp, tap, holds)
+	defer conn.Stop()
 	opt := fsutil.ReceiveOpt{Merge: merge, Differ: differ}
+	if len(rejects) > 0 {
+		opt.Filter = func(p string, st *types.Stat) bool { return !c0607Rejected(rejects, p) }
+	}
 	if withProgress {
 		opt.ProgressCb = func(int, bool) {}
 	}
@@ -252,8 +312,10 @@ func run0701(in Sx) (out Sx) {
 	after := diskFilesSx(dest)
 	// let leaked goroutines of the real code show themselves (they stop at the torn-down stream)
 	evs = tap.Events()
+	conn.Stop()
 	tr, late := traceSx(evs)
-	return L(tr, NI(hang), atFin, after, NI(late))
+	so, ro := conn.Overlaps()
+	return L(tr, NI(hang), atFin, after, NI(late), L(NI(so), NI(ro)))
 }
 
 // ---------------------------------------------------------------- generators
@@ -373,6 +435,20 @@ func c0607Over(in Sx, transport int) Sx {
 	return L(append(append([]Sx{}, in.L...), NI(transport))...)
 }
 
+// a C06 case (without options) over a transport with sends kept in flight
+func c06Held(in Sx, transport int, holds ...c0607Hold) Sx {
+	return L(append(append([]Sx{}, in.L...), NI(transport), c0607HoldsSx(holds))...)
+}
+
+// a C07 case (without options) over a transport with a rejecting receive filter and held sends
+func c07Ext(in Sx, transport int, rejects []string, holds ...c0607Hold) Sx {
+	rj := make([]Sx, len(rejects))
+	for k, q := range rejects {
+		rj[k] = S(q)
+	}
+	return L(append(append([]Sx{}, in.L...), NI(transport), L(rj...), c0607HoldsSx(holds))...)
+}
+
 func isReg(st *types.Stat) bool { return os.FileMode(st.Mode)&os.ModeType == 0 }
 
 func shuffle[T any](r *Rng, xs []T) {
@@ -400,10 +476,17 @@ func genC06(g *Gen) {
 		g.Emit(0x0601, in, true, "directed")
 	}
 	n := g.Vol(500, 6000)
-	misuse, succeeded, hangs := 0, 0, 0
+	misuse, succeeded, hangs, overlapping := 0, 0, 0, 0
 	for i := 0; i < n; i++ {
 		r := g.Rng
 		view, cls := genC06View(r)
+		// id 0 requestable: a regular file at the root that sorts before (almost) everything else
+		if r.Chance(20) {
+			sz := r.Intn(40)
+			view = append(view, &MNode{Name: "!" + Pick(r, []string{"a", "first", "0"}), Stat: &types.Stat{Mode: 0644, Size: int64(sz), ModTime: 1600000000e9}, Content: fillContent(r, sz)})
+			sort.SliceStable(view, func(a, b int) bool { return view[a].Name < view[b].Name })
+			cls += "+file0"
+		}
 		entries := WalkEntries(view)
 		// exercise the hard-link reset: drop the first member of a link group
 		if r.Chance(25) {
@@ -548,18 +631,40 @@ func genC06(g *Gen) {
 		}
 		transport := c0607PickTransport(r)
 		cls += fmt.Sprintf("/t%d", transport)
-		in := L(ViewSx(view), L(openfail...), L(L(opsSx...), NI(ending)), NI(capacity), NI(chunk), NI(walkfail), NI(transport))
+		// sends kept in flight while other goroutines of Send have something to write
+		var holds []c0607Hold
+		if len(ops) > 0 && r.Chance(30) {
+			op := Pick(r, ops)
+			if op.When <= total && r.Chance(70) {
+				// STAT number When is in flight when the REQ scripted for "When STATs seen" arrives
+				holds = append(holds, c0607Hold{Kind: 0, N: op.When})
+			}
+			if len(ops) >= 2 && r.Chance(60) {
+				// the first DATA of one requested file is in flight while other requests are served
+				holds = append(holds, c0607Hold{Kind: 1, N: int(Pick(r, ops).ID & 0x7fffffff)})
+			}
+			if r.Chance(15) {
+				holds = append(holds, c0607Hold{Kind: 2})
+			}
+			if len(holds) > 0 {
+				cls += "+hold"
+			}
+		}
+		in := L(ViewSx(view), L(openfail...), L(L(opsSx...), NI(ending)), NI(capacity), NI(chunk), NI(walkfail), NI(transport), c0607HoldsSx(holds))
 		out := g.Emit(0x0601, in, len(distinct) >= 2 || bad != "", cls)
-		if len(out.L) == 3 && out.L[1].Kind == 'n' && out.L[1].Int() != 0 {
+		if len(out.L) >= 4 && out.L[3].Kind == 'l' && len(out.L[3].L) == 2 && out.L[3].L[0].Int()+out.L[3].L[1].Int() > 0 {
+			overlapping++
+		}
+		if len(out.L) >= 4 && out.L[1].Kind == 'n' && out.L[1].Int() != 0 {
 			if hangs++; hangs >= c0607HangBudget {
 				g.Note("generator_stopped_after_hung_runs", hangs)
 				break
 			}
 		}
-		if len(out.L) == 3 && out.L[2].Kind == 'n' && out.L[2].Int() > 0 {
+		if len(out.L) >= 4 && out.L[2].Kind == 'n' && out.L[2].Int() > 0 {
 			misuse++
 		}
-		if len(out.L) == 3 && len(out.L[0].L) > 0 {
+		if len(out.L) >= 4 && len(out.L[0].L) > 0 {
 			last := out.L[0].L[len(out.L[0].L)-1]
 			if len(last.L) == 2 && last.L[0].Int() == 5 && last.L[1].IsTrue() {
 				succeeded++
@@ -567,7 +672,8 @@ func genC06(g *Gen) {
 		}
 	}
 	g.Note("runs_returning_success", succeeded)
-	g.Note("runs_with_overlapping_or_late_stream_calls", misuse)
+	g.Note("runs_with_late_stream_calls", misuse)
+	g.Note("runs_with_overlapping_stream_calls", overlapping)
 }
 
 // prior destination derived from the view: each node absent / identical / modified; a few
@@ -699,20 +805,44 @@ func genC07(g *Gen) {
 		progress := r.Chance(30)
 		transport := c0607PickTransport(r)
 		cls += fmt.Sprintf("/t%d", transport)
+		// ReceiveOpt.Filter rejecting entries (single files, links, special files, whole subtrees)
+		var rejects []string
+		if len(entries) > 0 && !huge && r.Chance(30) {
+			for k := 1 + r.Intn(3); k > 0; k-- {
+				rejects = append(rejects, Pick(r, entries).Stat.Path)
+			}
+			// a kept hard link needs its target: reject the members of a rejected target as well
+			for _, e := range entries {
+				if isReg(e.Stat) && e.Stat.Linkname != "" && !c0607Rejected(rejects, e.Stat.Path) && c0607Rejected(rejects, e.Stat.Linkname) {
+					rejects = append(rejects, e.Stat.Path)
+				}
+			}
+			cls += "+filter"
+		}
+		rj := make([]Sx, len(rejects))
+		for k, q := range rejects {
+			rj[k] = S(q)
+		}
+		// one REQ kept in flight while the other writer goroutines have their own REQ to send
+		var holds []c0607Hold
+		if nreg >= 2 && r.Chance(15) {
+			holds = append(holds, c0607Hold{Kind: 3, N: r.Intn(nreg)})
+			cls += "+hold"
+		}
 		in := L(ViewSx(view), ViewSx(prior), L(us...), L(Bool(merge), NI(differ)),
 			L(NI(sc.ChunkMode), NI(sc.Chunk), NI(sc.StatWeight), NI(sc.Pick), NI(sc.Ending), NI(sc.CloseAfter), N(sc.Seed)),
-			NI(capacity), Bool(progress), NI(transport))
+			NI(capacity), Bool(progress), NI(transport), L(rj...), c0607HoldsSx(holds))
 		out := g.Emit(0x0701, in, nreg >= 2, cls)
-		if len(out.L) == 5 && out.L[1].Kind == 'n' && out.L[1].Int() != 0 {
+		if len(out.L) >= 6 && out.L[1].Kind == 'n' && out.L[1].Int() != 0 {
 			if hangs++; hangs >= c0607HangBudget {
 				g.Note("generator_stopped_after_hung_runs", hangs)
 				break
 			}
 		}
-		if len(out.L) == 5 && out.L[4].Kind == 'n' && out.L[4].Int() > 0 {
+		if len(out.L) >= 6 && out.L[4].Kind == 'n' && out.L[4].Int() > 0 {
 			late++
 		}
-		if len(out.L) == 5 && len(out.L[0].L) > 0 {
+		if len(out.L) >= 6 && len(out.L[0].L) > 0 {
 			last := out.L[0].L[len(out.L[0].L)-1]
 			if len(last.L) == 2 && last.L[0].Int() == 5 && last.L[1].IsTrue() {
 				succeeded++
@@ -772,6 +902,25 @@ func directedC06() []Sx {
 			c0607Over(c06Input(v(), nil, all, 2, 0, 0, 0), t),                                      // receiver sends ERR (its text is quoted by Send)
 		)
 	}
+	// ids requested in descending / arbitrary order, id 0 (a regular file: first entry of the walk) last or in the middle
+	flat := func() []*MNode {
+		return []*MNode{fileNode("a", "first"), fileNode("b", "second"), dirNode("c", fileNode("x", "deep")), fileNode("e", "")}
+	} // ids: a0 b1 c2 c/x3 e4
+	for t := 0; t < c0607Transports; t++ {
+		over = append(over,
+			c0607Over(c06Input(flat(), nil, [][2]int{{6, 4}, {6, 3}, {6, 1}, {6, 0}}, 0, 1, 0, 0), t), // descending after the end marker
+			c0607Over(c06Input(flat(), nil, [][2]int{{2, 1}, {2, 0}, {5, 4}, {5, 3}}, 0, 0, 2, 0), t), // 1 then 0 while the STATs are still coming
+			c0607Over(c06Input(flat(), nil, [][2]int{{5, 3}, {5, 0}, {5, 0}}, 0, 2, 0, 0), t),         // id 0 twice after a non-zero id: the second is a duplicate
+		)
+	}
+	// sends kept in flight while another goroutine of Send has something to write
+	for t := 0; t < c0607Transports; t++ {
+		over = append(over,
+			c06Held(c06Input(flat(), nil, [][2]int{{2, 0}, {2, 1}}, 0, 0, 1, 0), t, c0607Hold{Kind: 0, N: 2}),                     // STAT 2 in flight, REQ 0 and 1 arrive
+			c06Held(c06Input(flat(), nil, [][2]int{{6, 0}, {6, 1}, {6, 3}}, 0, 4, 1, 0), t, c0607Hold{Kind: 1, N: 0}),             // first DATA of id 0 in flight, two more files requested
+			c06Held(c06Input(flat(), nil, [][2]int{{1, 0}, {6, 1}}, 3, 4, 1, 0), t, c0607Hold{Kind: 0, N: 5}, c0607Hold{Kind: 2}), // end marker and FIN echo in flight
+		)
+	}
 	return append([]Sx{
 		c06Input(v(), nil, all, 0, 0, 0, 0),                                          // every file as its STAT arrives, unbuffered stream
 		c06Input(v(), nil, [][2]int{{7, 5}, {7, 3}, {7, 1}, {7, 2}}, 0, 8, 1, 0),     // after the end marker, reverse order, 1-byte reads
@@ -816,6 +965,28 @@ func directedC07() []Sx {
 			c0607Over(c07Input(v(), nil, nil, false, 0, refSendScript{Chunk: 2, StatWeight: 0, Pick: 2, Seed: 2}, 0, true), t),                   // DATA frames between the STATs
 			c0607Over(c07Input(many, nil, nil, false, 0, refSendScript{Chunk: 4, StatWeight: 50, Pick: 3, Seed: 12}, 2, false), t),               // 12 files, round robin
 			c0607Over(c07Input(v(), prior, []string{"d/a"}, false, 0, refSendScript{Chunk: 100, StatWeight: 50, Pick: 3, Seed: 4}, 1, false), t), // with a prior destination
+		)
+	}
+	// ReceiveOpt.Filter rejects entries that precede wanted regular files in the STAT sequence
+	// (ids stay positions in the STAT sequence: d0 d/a1 d/b2 d/h3 l4 z5; src0 src/cache1 src/cache/o2 src/m3 top4)
+	nested := func() []*MNode {
+		return []*MNode{dirNode("src", dirNode("cache", fileNode("o", "obj")), fileNode("m", "main")), fileNode("top", "module")}
+	}
+	sc := refSendScript{Chunk: 3, StatWeight: 60, Pick: 3, Seed: 21}
+	for t := 0; t < c0607Transports; t++ {
+		over = append(over,
+			c07Ext(c07Input(v(), nil, nil, false, 0, sc, 1, false), t, []string{"d"}),                // a whole subtree before z
+			c07Ext(c07Input(v(), nil, nil, false, 0, sc, 0, false), t, []string{"d/a", "d/h"}),       // a file (and its link) before d/b and z
+			c07Ext(c07Input(v(), nil, nil, false, 0, sc, 2, false), t, []string{"l"}),                // a symlink before z
+			c07Ext(c07Input(nested(), nil, nil, false, 0, sc, 1, false), t, []string{"src/cache"}),   // a directory with a file, before src/m and top
+			c07Ext(c07Input(v(), prior, []string{"d/a"}, true, 0, sc, 1, false), t, []string{"d/b"}), // Merge, prior destination, one file rejected
+		)
+	}
+	// one REQ kept in flight while the other writers have theirs to send
+	for t := 0; t < c0607Transports; t++ {
+		over = append(over,
+			c07Ext(c07Input(many, nil, nil, false, 0, refSendScript{Chunk: 4, StatWeight: 100, Pick: 3, Seed: 22}, 2, false), t, nil, c0607Hold{Kind: 3, N: 0}),
+			c07Ext(c07Input(many, nil, nil, false, 0, refSendScript{Chunk: 100, StatWeight: 50, Pick: 0, Seed: 23}, 0, false), t, nil, c0607Hold{Kind: 3, N: 3}, c0607Hold{Kind: 2}),
 		)
 	}
 	return append([]Sx{
